@@ -33,7 +33,7 @@ PROP = dict(
         "Coq 8.16.1 kernel and vm_compute (no native_compute); no axioms declared by this development (driver greps for Admitted/admit/Axiom/Parameter/Conjecture/unset checks on every run)",
         "the Go correspondence harness (generators, routing of cases to the tagged streams by a syntactic test, the strict parser of the CSV --enclose-all observation channel) in /verif/harness, built against /repo's working tree on every run",
         "modelled, not verified: character-set transcoding (golang.org/x/text; the models work on decoded code points, UTF-8 only in the direct tie; SJIS/UTF-16 are exercised end to end only), unicode.IsLetter (carried per case as the list of letters occurring in it; the theorems quantify over every such predicate), bufio.Reader.UnreadRune refusing to unread after a failed ReadRune (Go standard library behaviour the model mirrors: CR directly before EOF is an error), integer/float/boolean/datetime rendering (cells carry the rendered text), JSON/JSON Lines/fixed-length codecs (go-text json, jsonl, fixedlen: compared end to end only, no Coq model)",
-        "the line break after the last record is appended by the callers of EncodeView (transaction.go:160-164, 186-190, processor.go:226-228): the direct tie appends it in the harness, the end-to-end runs check that the binary does the same",
+        "the line break after the last record is appended by the callers of EncodeView (transaction.go: the file's own line break at COMMIT; processor.go: the session's for SELECT output; both through EncodeEndingLineBreak): the direct tie appends it in the harness, the end-to-end runs compare the binary's bytes (also with a committing process whose --line-break differs from the file's) with the models'",
     ],
     assumptions=[
         "delimiter is not the double quote, CR or LF (delim_ok); U+FEFF at the start of a file and NUL are outside the generated fragment (encoding detection)",
@@ -41,7 +41,7 @@ PROP = dict(
         "LTSV/JSON/JSON Lines cannot spell an empty record set (the header is lost) and CSV/TSV/fixed-length write nothing for it without header (DataEmpty): such tables are outside the round-trip statements; two LTSV columns with one label are outside as well",
         "fixed-length is compared with explicit delimiter positions on both sides; automatic positions (SPACES) are a heuristic on columns of blanks and are not compared",
     ],
-    level_text="Proof: 18 Coq theorems + 4 examples (Properties/C02.v) about an executable model of go-text's CSV and LTSV writers/readers under csvq's encodeCSV/encodeLTSV and loadViewFromCSVFile/loadViewFromLTSVFile (Model/Csv.v, Model/Ltsv.v: left-to-right machines on code-point lists). For ALL tables, cell texts, delimiters, line breaks LF/CR/CRLF, enclose-all, without-header and with/without the appended line break: csv_roundtrip is REFUTED on the code as it is (CR/LF written bare; one-column tables with an empty cell; CR before EOF), proved under the hypothesis `spellable` (csv_roundtrip_partial: exact table + detected line break) and proved without any hypothesis on the texts for the repaired writer (csv_roundtrip_repaired; the harness detects which writer the tree has); csv_no_shift is refuted for both writers (single column) and proved for the repaired writer with >= 2 columns, plus prefix stability for the code as it is (damage never travels backwards); csv_load_rectangular and ltsv_load_rectangular hold for EVERY input text and option vector; dialect_preserved is refuted (COMMIT appends the session's line break) and proved when the file keeps two lines or the session's line break is the file's; ltsv_roundtrip is refuted (colons dropped; one-column tables) and proved for >= 2 distinct labels and colon-free values; ltsv_refuses (TAB/CR/LF in a value or a bad label => error, no bytes). The models are tied to the code on every run: EncodeView bytes and loader results (table, detected line break, EnclosedAll, ExportOptions) are compared with the models inside Coq on generated tables and on arbitrary/mutated texts; the six formats x line breaks x enclose-all/without-header/strip-ending-line-break are additionally run end to end with the binary (--out, stdout, INSERT+COMMIT; fresh-process re-import) and compared cell by cell by a decidable same-table checker. Encoding preservation (BOM, byte order, encoding after UPDATE/INSERT+COMMIT, and the encoding SHOW FIELDS reports) is checked on the bytes for all 18 encoding-sniffing paths x CSV/TSV/LTSV/FIXED with encoders/decoders of the harness's own. JSON, JSON Lines, fixed-length and the non-UTF-8 encodings have no Coq model (end to end only).",
+    level_text="Proof: 18 Coq theorems + 5 examples (Properties/C02.v) about an executable model of go-text's CSV and LTSV writers/readers under csvq's encodeCSV/encodeLTSV and loadViewFromCSVFile/loadViewFromLTSVFile (Model/Csv.v, Model/Ltsv.v: left-to-right machines on code-point lists). For ALL tables, cell texts, delimiters, line breaks LF/CR/CRLF, enclose-all, without-header and with/without the appended line break: csv_roundtrip is REFUTED on the code as it is (CR/LF written bare; one-column tables with an empty cell; CR before EOF), proved under the hypothesis `spellable` (csv_roundtrip_partial: exact table + detected line break) and proved without any hypothesis on the texts for the repaired writer (csv_roundtrip_repaired; the harness detects which writer the tree has); csv_no_shift is refuted for both writers (single column) and proved for the repaired writer with >= 2 columns, plus prefix stability for the code as it is (damage never travels backwards); csv_load_rectangular and ltsv_load_rectangular hold for EVERY input text and option vector; dialect_preserved is proved for the code as it is (COMMIT appends the file's own line break, ec68d2d) whenever the re-written file shows a line break or the session's default is the file's, and refuted for the earlier behaviour (the session's line break appended); ltsv_roundtrip is refuted (colons dropped; one-column tables) and proved for >= 2 distinct labels and colon-free values; ltsv_refuses (TAB/CR/LF in a value or a bad label => error, no bytes). The models are tied to the code on every run: EncodeView bytes and loader results (table, detected line break, EnclosedAll, ExportOptions) are compared with the models inside Coq on generated tables and on arbitrary/mutated texts; the six formats x line breaks x enclose-all/without-header/strip-ending-line-break are additionally run end to end with the binary (--out, stdout, INSERT+COMMIT; fresh-process re-import) and compared cell by cell by a decidable same-table checker. Encoding preservation (BOM, byte order, encoding after UPDATE/INSERT+COMMIT, and the encoding SHOW FIELDS reports) is checked on the bytes for all 18 encoding-sniffing paths x CSV/TSV/LTSV/FIXED with encoders/decoders of the harness's own. JSON, JSON Lines, fixed-length and the non-UTF-8 encodings have no Coq model (end to end only).",
     level_note="Trusted: Coq kernel + vm_compute; Go harness; transcoding, unicode.IsLetter and bufio.UnreadRune behaviour as data/assumptions; JSON/JSONL/FIXED codecs unmodelled. Fragment: delimiter not in {double quote, CR, LF}; no U+FEFF/NUL; FIXED with explicit positions.",
     design_ref="DESIGN.md section 5 (C02, C19 csv_load_rectangular), section 6 F-C02-1..5",
     technique="Coq theorems on executable codec models (reader/writer state machines) + vm_compute correspondence with query.EncodeView / the loaders + end-to-end runs of the binary",
